@@ -377,7 +377,7 @@ Definition step (w : world) (st : state) (a : action) : result * list event * st
   | Advance dt => (RUnit, [], St (s_now st + dt) (s_mgrs st))
   | Gc mi =>
       match nth_error (s_mgrs st) mi with
-      | None => (RBad, [], st)
+      | None => (RUnit, [], st)
       | Some m => (RUnit, [], St (s_now st) (set_nth mi (m_gc (s_now st) m) (s_mgrs st)))
       end
   end.
